@@ -156,6 +156,7 @@ enum Found<'a> {
     Item(&'a syn::Item),
     ImplFn(&'a syn::ItemImpl, &'a syn::ImplItemFn),
     TraitFn(&'a syn::ItemTrait, &'a syn::TraitItemFn),
+    ImplConst(&'a syn::ImplItemConst),
 }
 
 fn type_last_ident(t: &syn::Type) -> Option<String> {
@@ -265,6 +266,11 @@ fn find_item<'a>(items: &'a [syn::Item], path: &str) -> Result<Found<'a>, Lost> 
                                 if let syn::ImplItem::Fn(f) = ii {
                                     if f.sig.ident == m {
                                         hits.push(Found::ImplFn(im, f));
+                                    }
+                                }
+                                if let syn::ImplItem::Const(c) = ii {
+                                    if c.ident == m {
+                                        hits.push(Found::ImplConst(c));
                                     }
                                 }
                             }
@@ -477,6 +483,48 @@ fn collect_ref_pats(p: &syn::Pat, edits: &mut Edits, names: &mut Vec<String>) {
     }
 }
 
+thread_local! {
+    static SRC: std::cell::RefCell<String> = std::cell::RefCell::new(String::new());
+}
+
+fn src_slice(s: usize, e: usize) -> String {
+    SRC.with(|t| t.borrow()[s..e].to_string())
+}
+
+fn is_place(e: &syn::Expr) -> bool {
+    match e {
+        syn::Expr::Path(_) => true,
+        syn::Expr::Field(f) => is_place(&f.base),
+        syn::Expr::Index(i) => is_place(&i.expr) && matches!(&*i.index, syn::Expr::Path(_) | syn::Expr::Lit(_)),
+        syn::Expr::Paren(p) => is_place(&p.expr),
+        _ => false,
+    }
+}
+
+/// matches `for (i, PAT) in RECV.iter().enumerate()`; returns (i, PAT, RECV)
+fn n6_match(f: &syn::ExprForLoop) -> Option<(String, &syn::Pat, &syn::Expr)> {
+    let t = match &*f.pat {
+        syn::Pat::Tuple(t) if t.elems.len() == 2 => t,
+        _ => return None,
+    };
+    let idx = match &t.elems[0] {
+        syn::Pat::Ident(i) if i.by_ref.is_none() && i.subpat.is_none() => i.ident.to_string(),
+        _ => return None,
+    };
+    let en = match &*f.expr {
+        syn::Expr::MethodCall(m) if m.method == "enumerate" && m.args.is_empty() => m,
+        _ => return None,
+    };
+    let it = match &*en.receiver {
+        syn::Expr::MethodCall(m) if m.method == "iter" && m.args.is_empty() => m,
+        _ => return None,
+    };
+    if !is_place(&it.receiver) {
+        return None;
+    }
+    Some((idx, &t.elems[1], &it.receiver))
+}
+
 fn lets(names: &[String]) -> String {
     names.iter().map(|n| format!(" let {n} = *{n}__r;")).collect::<Vec<_>>().join("")
 }
@@ -494,8 +542,38 @@ fn normalise_body(
     log: &mut Vec<String>,
     closure_hdrs: &std::collections::BTreeMap<usize, ClosureHdr>,
 ) -> Result<(), Lost> {
+    // N6 `for (i, x) in E.iter().enumerate() { B }` -> `for i in 0..E.len() { let x = &E[i]; B }`
+    // (E a place expression: path / field / index chain, so evaluating it per iteration is the same)
+    let mut n6_done: Vec<usize> = Vec::new();
+    for (fi, f) in nodes.fors.iter().enumerate() {
+        if let Some((idx, pat_b, recv)) = n6_match(f) {
+            let (ps, pe) = br(f.pat.span());
+            let (es, ee) = br(f.expr.span());
+            let (rs, re) = br(recv.span());
+            let recv_txt = src_slice(rs, re);
+            edits.rep(ps, pe, idx.clone(), "N6");
+            edits.rep(es, ee, format!("0..({recv_txt}).len()"), "N6");
+            let at = br(f.body.brace_token.span.open()).1;
+            let bind = match pat_b {
+                syn::Pat::Reference(r) => {
+                    let (is, ie) = br(r.pat.span());
+                    format!(" let {} = ({recv_txt})[{idx}];", src_slice(is, ie))
+                }
+                other => {
+                    let (is, ie) = br(other.span());
+                    format!(" let {} = &({recv_txt})[{idx}];", src_slice(is, ie))
+                }
+            };
+            edits.ins(at, bind, "N6");
+            log.push(format!("N6 for ({idx}, _) in {recv_txt}.iter().enumerate() -> index loop"));
+            n6_done.push(fi);
+        }
+    }
     // N1 for-loops
-    for f in &nodes.fors {
+    for (fi, f) in nodes.fors.iter().enumerate() {
+        if n6_done.contains(&fi) {
+            continue;
+        }
         let mut names = Vec::new();
         collect_ref_pats(&f.pat, edits, &mut names);
         if !names.is_empty() {
@@ -929,6 +1007,13 @@ fn process(src: &str, file: &syn::File, req: &ItemReq) -> Result<ItemResp, Lost>
                 "",
             )?;
         }
+        Found::ImplConst(c) => {
+            let (s, e) = br(c.span());
+            start = s;
+            end = e;
+            signature = format!("const {}", c.ident);
+            filter_attrs(&c.attrs, &mut edits, &mut log, req.keep_docs);
+        }
         Found::TraitFn(_, f) => {
             let (s, e) = br(f.span());
             start = s;
@@ -1162,6 +1247,7 @@ fn main() {
             std::process::exit(2);
         }
     };
+    SRC.with(|t| *t.borrow_mut() = src.clone());
     let file = match syn::parse_file(&src) {
         Ok(f) => f,
         Err(e) => {
